@@ -521,6 +521,11 @@ class MessageManager(interfaces.TokenInterface, interfaces.MessageManager):
                 remote == message.remote for (remote, _) in self._active_exchanges
             )
             self.log.debug("Message to %s put into backlog", message.remote)
+            # A message that can not be serialized has to fail here, where the
+            # caller can still react (eg. by sending a 5.00 instead), and not
+            # when the backlog is worked off from inside the processing of
+            # some unrelated incoming message.
+            message.encode()
             self._backlogs[message.remote].append((message, messageerror_monitor))
         else:
             self._send_initially(message, messageerror_monitor)
@@ -538,7 +543,17 @@ class MessageManager(interfaces.TokenInterface, interfaces.MessageManager):
 
         self._store_response_for_duplicates(message)
 
-        self._send_via_transport(message)
+        try:
+            self._send_via_transport(message)
+        except Exception:
+            # A message that can not be put on the wire (eg. because it can
+            # not be serialized) is reported to the caller by the exception;
+            # it must not stay around as an exchange that is retransmitted
+            # (failing again in the event loop) and holds back everything else
+            # that is to be sent to that remote.
+            if message.mtype is CON:
+                self._remove_exchange(message)
+            raise
 
     def _send_via_transport(self, message):
         """Put the message on the wire"""
